@@ -328,6 +328,10 @@ def r6_whole_domain(ctx):
 # a helper does not change the set. A new entry means a new way for a rule-breaking component to escape the check.
 REVIEWED_SKIP_PREDICATES = {
     'analyses::constructibles::ConstructibleDb::detect_missing_constructors': {
+        # the input the framework itself provides (`Next` of a wrapping middleware, the `Response` of a post-processing one) is masked: it has
+        # no constructor to look for. Visible as predicates when the masking is computed by a helper instead of in place.
+        'component::post_processing_middleware::PostProcessingMiddleware::response_input_index',
+        'component::wrapping_middleware::WrappingMiddleware::next_input_index',
         'analyses::components::db::ComponentDb::bind_generic_type_parameters',
         'analyses::components::db::ComponentDb::cloning_policy',
         'analyses::components::db::ComponentDb::derived_component_ids',
@@ -394,6 +398,7 @@ REVIEWED_SKIP_PREDICATES = {
         'analyses::components::db::ComponentDb::iter',
         'analyses::components::hydrated::HydratedComponent::output_type',
         'core::cmp::PartialEq::ne',
+        'core::cmp::PartialEq::eq',       # the cloning policy compared with a constant, in either polarity
         'framework_rustdoc::resolve_type_path',
         'traits::assert_trait_is_implemented',
     },
